@@ -38,7 +38,9 @@ from vmc.report import Check
 PID = "C20"
 LEVEL = "exploration"
 ENGINE = "E1 exhaustive product: kernels x shapes x matrix families"
-RULE = ("matrix part: every m x n (1<=n<=m<=4, thorough 6; generic members to 8) member of "
+RULE = ("matrix part: every m x n (1<=n<=m<=4, thorough 6; generic members to 8; quick also m=5..6 for "
+        "generic/nearly dependent/tied members: first 8/3/1 through all kernels, 36/12/3 through the gmd "
+        "identities) member of "
         "{all {1,j,-1} complex matrices <=6 (thorough 8) entries, all {0,1,-1} int64 matrices likewise "
         "(quick: the 4x2 integer family through peig/leig only), "
         "generic complex/real s<12 (100), nearly dependent kappa 1e2/1e4/1e6 s<6 (30), tied singular "
@@ -71,7 +73,11 @@ def shapes(M):
 
 TIED = {2: [(1, 1), (1 + 2.0 ** -52, 1), (2, 2 - 2.0 ** -51), (3, 1)],
         3: [(1, 1, 1), (2, 1, 1), (2, 2, 1), (2, 2 * (1 - 2.0 ** -52), 1), (4, 2, 1)],
-        4: [(1, 1, 1, 1), (2, 2, 1, 1), (3, 1, 1, 1), (3, 3, 3, 1)]}
+        4: [(1, 1, 1, 1), (2, 2, 1, 1), (3, 1, 1, 1), (3, 3, 3, 1)],
+        5: [(1, 1, 1, 1, 1), (2, 2, 1, 1, 1), (4, 3, 2, 1, 1), (9, 1, 1, 1, 1), (5, 4, 3, 2, 1),
+            (16, 8, 4, 2, 1), (3, 3, 3, 3, 1), (8, 7, 1, 1, 1)],
+        6: [(1, 1, 1, 1, 1, 1), (2, 2, 2, 1, 1, 1), (6, 5, 4, 3, 2, 1), (32, 16, 8, 4, 2, 1),
+            (9, 9, 1, 1, 1, 1), (9, 1, 1, 1, 1, 1), (5, 5, 5, 5, 5, 1), (7, 6, 5, 1, 1, 1)]}
 
 
 def tied_member(s, shape, prof):
@@ -106,6 +112,24 @@ def matrix_items(tier):
                     for s in range(3):
                         yield ("tied%d" % pi, s, tied_member(s, shape, prof))
     if not thorough:
+        # quick tier, m in 5..6: generic / nearly dependent / tied members.  All kernels on the first
+        # members; the gmd identities alone (its permutation bookkeeping only shows its full behaviour
+        # for n >= 5) on more of them.  thorough runs all kernels on all of them (M = 6 above).
+        for shape in [(m, n) for m in (5, 6) for n in range(1, m + 1)]:
+            m, n = shape
+            for s in range(36 if n >= 4 else 8):
+                sfx = "" if s < 8 else "_gmdonly"
+                yield ("generic_c" + sfx, s, F.generic(s, shape, True, tag=20))
+                yield ("generic_r" + sfx, s, F.generic(s, shape, False, tag=20))
+            if n >= 2:
+                for kappa in (1e2, 1e4, 1e6):
+                    for s in range(12 if n >= 4 else 3):
+                        yield ("neardep%g%s" % (kappa, "" if s < 3 else "_gmdonly"), s,
+                               F.nearly_dependent(s, shape, kappa))
+            if n in TIED:
+                for pi, prof in enumerate(TIED[n]):
+                    for s in range(3):
+                        yield ("tied%d%s" % (pi, "" if s < 1 else "_gmdonly"), s, tied_member(s, shape, prof))
         # quick tier: the 8-entry integer family goes through the eigen selectors only (real symmetric
         # matrices A A^T with a double zero eigenvalue first appear here); thorough runs it through all kernels
         for i, A in enumerate(F.small_entry_matrices((4, 2), (0, 1, -1))):
@@ -354,6 +378,9 @@ def run_matrix_item(chk, fam, member, A):
     if fam.endswith("_eigonly"):
         run_eig(chk, case, gram, "A^H.A")
         run_eig(chk, case, outer, "A.A^H")
+        return
+    if fam.endswith("_gmdonly"):
+        run_gmd(chk, dict(case, kernel="gmd"), A, kappa, sv)
         return
     if kappa <= bound(K_PROJ):
         run_projection(chk, dict(case, kernel="projection"), A, kappa)
